@@ -95,9 +95,10 @@ Theorem gen_graft_post_init_eq_model : forall r, guard_outcome (gen_graft_post_i
 Proof.
   intro r. unfold gen_graft_post_init, Hyper.graft_post_init, GenC17.adam_post_init, GenC17.rmsprop_post_init, GenC17.adagrad_post_init,
     GenC17.sgd_post_init, ok_geps, ok_gb2, fl0, fl1.
-  destruct (gkind r); try reflexivity;
-    destruct (pn_ltb (PFlt (0 # 1)) (geps r)); cbn [negb bind guard_outcome]; try reflexivity;
-    destruct (pn_ltb (PFlt (0 # 1)) (gb2 r) && pn_leb (gb2 r) (PFlt (1 # 1))); reflexivity.
+  (* every atomic comparison is decided separately, so the tests may be written negated, split or joined *)
+  destruct (gkind r); try reflexivity; cbv zeta;
+    destruct (pn_ltb (PFlt (0 # 1)) (geps r)); cbn [negb andb orb bind guard_outcome]; try reflexivity;
+    destruct (pn_ltb (PFlt (0 # 1)) (gb2 r)); destruct (pn_leb (gb2 r) (PFlt (1 # 1))); reflexivity.
 Qed.
 Print Assumptions gen_graft_post_init_eq_model.
 
